@@ -70,8 +70,9 @@ Inductive case :=
        has the same Hash and FullHash *)
 | CPair (t1 : tx) (t2 : palt) (hash_eq full_eq : bool)
     (* Hash(t1) = Hash(t2), FullHash(t1) = FullHash(t2) *)
-| CVerify (ds : list (Z * bool * Z)) (h : Z) (t0 : tx) (alt : mut) (msg : list N) (drv_out impl : N)
-    (* ds: the driver registry configuration (id, enable, enable height); t0
+| CVerify (ds : list (Z * bool * Z)) (aids : list Z) (h : Z) (t0 : tx) (alt : mut) (msg : list N) (drv_out impl : N)
+    (* ds: the driver registry configuration (id, enable, enable height); aids:
+       the address ids whose driver derives an address from a public key; t0
        signed by Transaction.Sign; t' = apply_mut t0 alt presented: impl =
        t'.CheckSign(h).  msg = Encode(proto.Clone(t') with
        Signature cleared by the harness), drv_out = the selected driver's
@@ -79,7 +80,7 @@ Inductive case :=
        Outcomes: 0 = false / error, 1 = true / nil, 2 = panic. *)
 | CWireErr (t0 : tx) (w : wire)
     (* types.Decode(w) returned an error *)
-| CWire (ds : list (Z * bool * Z)) (h : Z) (t0 : tx) (w : wire)
+| CWire (ds : list (Z * bool * Z)) (aids : list Z) (h : Z) (t0 : tx) (w : wire)
         (dec : palt) (sunk unk : list N)
         (reenc clone_enc clonetx_enc : option (list N))
         (hash_plain full_plain clone_ok : bool) (drv_out impl : N)
@@ -92,7 +93,7 @@ Inductive case :=
        full_plain: d.FullHash() = sha256(Encode(strip d)); clone_ok: Clone() and
        CloneTx() keep Hash and FullHash.  drv_out = the driver's Validate on
        Encode(strip d, Signature = nil); impl = d.CheckSign(h). *)
-| CResign (ds : list (Z * bool * Z)) (h : Z) (t : tx) (sunk unk : list N) (ty : Z)
+| CResign (ds : list (Z * bool * Z)) (aids : list Z) (h : Z) (t : tx) (sunk unk : list N) (ty : Z)
           (signed : option (list N)) (drv_out impl : N)
     (* d decoded from wire bytes (declared fields t with the new signature,
        unknown bytes sunk / unk before signing): d.Sign(ty, key) then
@@ -104,10 +105,14 @@ Inductive case :=
     (* aids: address ids whose driver derives an address from a public key; t0 signed with its ty; presented
        with ty' (nothing else changed): chk = CheckSign(h), f0 / f1 = From() of
        t0 / of the presented transaction (None = panic) *)
+| CFromAny (ds : list (Z * bool * Z)) (aids : list Z) (h : Z) (t' : tx) (drv_out chk : N) (f1 : option (list N))
+    (* an arbitrary presented transaction (any ty, any / empty / no public key,
+       no relation to an honest signer): chk = CheckSign(h), f1 = From(),
+       drv_out = the driver's Validate called directly by the harness *)
 | CAction (msg xa : list N) (impl : option (list N * list N * N * list N * Z))
     (* secp256k1eth/types.DecodeTxAction(msg): (Note, To, Amount, Code, Nonce) or
        error; xa = address.ExecAddress(execer of the decoded msg) *)
-| CEth (ds : list (Z * bool * Z)) (h : Z) (cfg : Z * N) (t0 : tx) (alt : mut) (xa0 xa note : list N)
+| CEth (ds : list (Z * bool * Z)) (aids : list Z) (h : Z) (cfg : Z * N) (t0 : tx) (alt : mut) (xa0 xa note : list N)
        (ev : option (Z * Z * N * list N * option (list N))) (same_eth : bool)
        (inner_msg inner_eth impl : N).
     (* cfg = (evmChainID, coinsPrecision); t0 honest (an Ethereum-signed raw
@@ -147,18 +152,19 @@ Definition check_case (c : case) : verdict :=
                Bool.eqb full_eq (bytes_eqb (full_pre t1) (full_pre t2)) in
       let s := Bool.eqb hash_eq (spec_hash_eq t1 t2) && Bool.eqb full_eq (spec_full_eq t1 t2) in
       mk_verdict m s
-  | CVerify dsl h t0 alt msg drv_out impl =>
+  | CVerify dsl aids h t0 alt msg drv_out impl =>
       let ds := map (fun x => match x with (i, e, hh) => mk_drv i e hh end) dsl in
       let t' := apply_mut t0 alt in
-      (* the model's gate (signature present, driver known and enabled) and
-         the message it hands to the driver; the driver's answer is the oracle *)
-      let predicted := if check_sign ds (fun _ _ _ _ => true) t' h then drv_out else 0%N in
+      (* the model's gate (signature present, a sender address derivable,
+         driver known and enabled) and the message it hands to the driver; the
+         driver's answer is the oracle *)
+      let predicted := if check_sign_tx (adrv_of aids [1%N]) ds (fun _ _ _ _ => true) t' h then drv_out else 0%N in
       let m := bytes_eqb msg (signed_bytes t') && N.eqb impl predicted in
       let s := spec_verify ds h t0 t' impl in
       (m, s, if s then 0%N else kf_classify t0 t' impl)
   | CWireErr t0 w =>
       mk_verdict (match wire_decode (wire_bytes t0 w) with None => true | Some _ => false end) true
-  | CWire dsl h t0 w dec sunk unk reenc0 clone_enc0 clonetx_enc0 hash_plain full_plain clone_ok drv_out impl =>
+  | CWire dsl aids h t0 w dec sunk unk reenc0 clone_enc0 clonetx_enc0 hash_plain full_plain clone_ok drv_out impl =>
       let ds := mk_ds dsl in
       let di := mk_dtx (apply_palt t0 dec) sunk unk in
       let plain_enc := encode_tx (d_tx di) in
@@ -173,14 +179,14 @@ Definition check_case (c : case) : verdict :=
             Bool.eqb hash_plain (bytes_eqb (hash_pre_d d) (hash_pre (d_tx d))) &&
             Bool.eqb full_plain (bytes_eqb (full_pre_d d) (full_pre (d_tx d))) &&
             bytes_eqb (signed_bytes_d d) (signed_bytes (d_tx d)) &&
-            N.eqb impl (if check_sign_d ds (fun _ _ _ _ => true) d h then drv_out else 0%N)
+            N.eqb impl (if check_sign_tx_d (adrv_of aids [1%N]) ds (fun _ _ _ _ => true) d h then drv_out else 0%N)
         end in
       let s := spec_wire ds h t0 di hash_plain full_plain clone_ok impl in
       (m, s, if s then 0%N
              else if kf_unknown_ignored ds h t0 di hash_plain full_plain clone_ok impl then 8%N
              else if spec_wire_hash di hash_plain full_plain && clone_ok then kf_classify t0 (d_tx di) impl
              else 0%N)
-  | CResign dsl h t sunk unk ty signed0 drv_out impl =>
+  | CResign dsl aids h t sunk unk ty signed0 drv_out impl =>
       let ds := mk_ds dsl in
       let d := mk_dtx t sunk unk in
       let plain_msg := encode_tx (set_sig None t) in
@@ -189,7 +195,7 @@ Definition check_case (c : case) : verdict :=
                match signature t with
                | Some s' =>
                    Z.eqb (s_ty s') ty &&
-                   N.eqb impl (if check_sign_d ds (fun _ _ _ _ => true) (sign_d ty (s_pub s') (s_sig s') d) h
+                   N.eqb impl (if check_sign_tx_d (adrv_of aids [1%N]) ds (fun _ _ _ _ => true) (sign_d ty (s_pub s') (s_sig s') d) h
                                then drv_out else 0%N)
                | None => false
                end in
@@ -198,20 +204,32 @@ Definition check_case (c : case) : verdict :=
   | CFrom dsl aids h t0 ty' drv_out chk f0 f1 =>
       let ds := mk_ds dsl in
       let t' := apply_mut t0 (MTy ty') in
-      let ty0 := match signature t0 with Some s0 => s_ty s0 | None => 0%Z end in
-      let m := N.eqb chk (if check_sign ds (fun _ _ _ _ => true) t' h then drv_out else 0%N) &&
-               Bool.eqb (match f0 with None => true | Some _ => false end) (from_panics aids ty0) &&
-               Bool.eqb (match f1 with None => true | Some _ => false end) (from_panics aids ty') &&
+      let ty0 := sig_ty t0 in
+      let pub := sig_pub t0 in
+      let m := N.eqb chk (if check_sign_tx (adrv_of aids [1%N]) ds (fun _ _ _ _ => true) t' h then drv_out else 0%N) &&
+               from_agrees aids ty0 pub f0 && from_agrees aids ty' pub f1 &&
+               Bool.eqb (is_some f0) (is_some (tx_from (adrv_of aids [1%N]) t0)) &&
+               Bool.eqb (is_some f1) (is_some (tx_from (adrv_of aids [1%N]) t')) &&
                match f0, f1 with
-               | Some a, Some b => Bool.eqb (bytes_eqb a b) (Z.eqb (addr_id ty0) (addr_id ty'))
+               | Some a, Some b =>
+                   if sender_usable aids ty0 pub && sender_usable aids ty' pub
+                   then Bool.eqb (bytes_eqb a b) (Z.eqb (addr_id ty0) (addr_id ty'))
+                   else true
                | _, _ => true
                end in
-      let s1 := spec_from_bound ds aids h ty0 ty' chk in
-      let s2 := spec_from_total chk f1 in
+      let s1 := spec_from_bound ds aids h ty0 ty' pub chk in
+      let s2 := spec_from_total aids ty' pub chk f1 && is_some f0 in
       (m, s1 && s2,
        if s1 && s2 then 0%N
        else if negb s1 then (if kf_ty_unbound ty0 ty' chk then 10%N else 0%N)
-       else if kf_from_panic aids ty' chk f1 then 11%N else 0%N)
+       else 0%N)
+  | CFromAny dsl aids h t' drv_out chk f1 =>
+      let ds := mk_ds dsl in
+      let m := N.eqb chk (if check_sign_tx (adrv_of aids [1%N]) ds (fun _ _ _ _ => true) t' h then drv_out else 0%N) &&
+               from_agrees aids (sig_ty t') (sig_pub t') f1 &&
+               Bool.eqb (is_some f1) (is_some (tx_from (adrv_of aids [1%N]) t')) in
+      let s := negb (N.eqb chk 2) && spec_from_total aids (sig_ty t') (sig_pub t') chk f1 in
+      mk_verdict m s
   | CAction msg xa impl =>
       let mo := option_map (fun a => (a_note a, a_to a, a_amount a, a_code a, a_nonce a))
                            (decode_tx_action (fun _ => xa) msg) in
@@ -220,7 +238,7 @@ Definition check_case (c : case) : verdict :=
                      bytes_eqb n1 n2 && bytes_eqb t1 t2 && N.eqb a1 a2 && bytes_eqb c1 c2 && Z.eqb k1 k2
                  end) mo impl in
       mk_verdict m true
-  | CEth dsl h cfg t0 alt xa0 xa note ev same_eth inner_msg inner_eth impl =>
+  | CEth dsl aids h cfg t0 alt xa0 xa note ev same_eth inner_msg inner_eth impl =>
       let ds := mk_ds dsl in
       let t' := apply_mut t0 alt in
       let evv := option_map (fun x => match x with (c, n, v, dt, to) => mk_ev c n v dt to [] end) ev in
@@ -229,7 +247,7 @@ Definition check_case (c : case) : verdict :=
       let vfy := verify_with_eth (mk_ec (fst cfg) (snd cfg)) (fun _ => xa) (fun _ => evv) inner
                                  (fun _ _ _ _ => false) in
       let act := decode_tx_action (fun _ => xa) (signed_bytes t') in
-      let m := N.eqb impl (if check_sign ds vfy t' h then 1%N else 0%N) &&
+      let m := N.eqb impl (if check_sign_tx (adrv_of aids [1%N]) ds vfy t' h then 1%N else 0%N) &&
                bytes_eqb (match act with Some a => a_note a | None => [] end) note in
       let s := spec_verify ds h t0 t' impl in
       (m, s, if s then 0%N
